@@ -365,6 +365,37 @@ func runC16(rc *RunCtx) {
 					c16Message(rc, bz, "module-address-words")
 				}
 				c16EncodeMessage(rc, m, "module-address-words")
+				// ... and with all-zero words in the same positions (a zero word is a word like any other)
+				if l <= 140 || l == 248 {
+					z := &ref.Message{Version: 0, SrcDomain: dir[0], DstDomain: dir[1], Nonce: uint64(l), Sender: structured(32, 0x11), Recipient: structured(32, 0x55), Caller: structured(32, 0x99), Body: structured(l-116, 0xc1)}
+					if w&1 != 0 {
+						z.Recipient = make([]byte, 32)
+					}
+					if w&2 != 0 {
+						z.Sender = make([]byte, 32)
+					}
+					if w&4 != 0 {
+						z.Caller = make([]byte, 32)
+					}
+					if bz, err := ref.EncodeMessage(z); err == nil {
+						c16Message(rc, bz, "zero-words")
+					}
+					c16EncodeMessage(rc, z, "zero-words")
+					zb := &ref.BurnMessage{Version: 0, BurnToken: structured(32, 0x21), MintRecipient: structured(32, 0x61), Amount: big.NewInt(int64(l)), Sender: structured(32, 0xa1)}
+					if w&1 != 0 {
+						zb.BurnToken = make([]byte, 32)
+					}
+					if w&2 != 0 {
+						zb.MintRecipient = make([]byte, 32)
+					}
+					if w&4 != 0 {
+						zb.Sender = make([]byte, 32)
+					}
+					if w == 7 {
+						zb.Amount = big.NewInt(0)
+					}
+					c16EncodeBurn(rc, zb, "zero-words")
+				}
 			}
 		}
 	}
